@@ -67,6 +67,8 @@ Contradictions(o) ==
     <<"app-missing-loom2", Mut(c, g, "app", 0)>>,
     <<"app-negative",   Mut(Mut(c, b, "app", -2), a, "app", -2)>>,
     <<"rank-mismatch",  Mut(Mut(cr, a, "rank", 3), a, "nranks", 4)>>,
+    \* the same with rank 0 on one side (0 is a rank, not "no rank")
+    <<"rank-mismatch-zero", Mut(Mut(cr, g, "rank", 2), g, "nranks", 4)>>,
     <<"nranks-mismatch", Mut(Mut(cr, a, "rank", 1), a, "nranks", 5)>>,
     <<"nranks-missing", Mut(cr, d, "nranks", 0)>>,
     \* a second thread of the process carries only a (different) rank count
@@ -88,9 +90,11 @@ Contradictions(o) ==
 \* ordered by name, the processes of a ranked loom by rank, of an unranked loom by pid), in every
 \* processing order.  PID order and rank order differ in looms 1 and 3.
 \* PIDs are unique inside a loom only: loom 2 has a process with the PID of one of loom 1
-Slots3 == <<[l |-> 1, p |-> 40, t |-> 11, r |-> 0, a |-> 4], [l |-> 1, p |-> 30, t |-> 21, r |-> 1, a |-> 3],
+\* The rank order of the looms (3, 2, 1) is the reverse of their name order: a comparison that uses the ranks
+\* for some pairs of looms and the names for others cannot be consistent here.
+Slots3 == <<[l |-> 1, p |-> 40, t |-> 11, r |-> 3, a |-> 4], [l |-> 1, p |-> 30, t |-> 21, r |-> 4, a |-> 3],
             [l |-> 2, p |-> 40, t |-> 31, r |-> 2, a |-> 5],
-            [l |-> 3, p |-> 70, t |-> 41, r |-> 3, a |-> 7], [l |-> 3, p |-> 60, t |-> 51, r |-> 4, a |-> 6]>>
+            [l |-> 3, p |-> 70, t |-> 41, r |-> 0, a |-> 7], [l |-> 3, p |-> 60, t |-> 51, r |-> 1, a |-> 6]>>
 BuildMixed(R, ord) ==
    LET rec(i) == LET sl == Slots3[i] IN
           M(sl.l, sl.p, sl.t, sl.a,
